@@ -24,7 +24,7 @@ CONSTANTS
  Rcs = {0}
  Cleans = {FALSE, TRUE}
  KAs = {0}
- ConnRMs = {99999}
+ ConnRMs = {1, 99999}
  ConnTAMs = {99999}
  ConnMPSs = {99999}
  ConnSEIs = {10, 99999}
@@ -52,3 +52,5 @@ CONSTANTS
  Restore = FALSE
  Regulate_ = FALSE
  OptFlips = {}
+ FreeIdSends = FALSE
+ Msgs = {"m1"}
